@@ -98,7 +98,8 @@ def rand_net(rng, v):
     plen = rng.choice([0, 1, 8, 16, 24, 31, 32, bits - 1, bits, rng.randrange(bits + 1)])
     plen = min(plen, bits)
     val = (rng.getrandbits(bits) >> (bits - plen) << (bits - plen)) if plen else 0
-    return ipaddress.ip_network((val, plen))
+    # (an explicit address class: ip_network((int, plen)) would read small integers as IPv4 whatever was meant)
+    return ipaddress.ip_network(((ipaddress.IPv4Address if v == 4 else ipaddress.IPv6Address)(val), plen))
 
 
 SPECIAL_V4 = ['255.255.255.255', '0.0.0.0', '127.0.0.1', '224.0.0.1', '10.0.0.255', '0.0.0.1', '1.0.0.0']
@@ -276,6 +277,70 @@ def forward(ck, rng, orc, cap, i):
                 ck.violation(f'{name}-request-wrong', {'decoded': d}, {'raw': raw})
 
 
+def child_sa_ranges(ck, rng, orc, cap, i):
+    """The two NEWSA requests of Xfrm.create_child_sa for a CHILD_SA whose negotiated selectors are address RANGES that are not CIDR blocks (what a peer may
+    legally narrow to): the kernel selector of each SA is the smallest network that contains the whole range (nothing of the negotiated traffic falls outside)."""
+    import collections
+    import ikesa as r_ikesa
+    import message as r_msg
+    v = rng.choice([4, 4, 6])
+    bits = 32 if v == 4 else 128
+
+    def rnd_range():
+        kind = rng.choice(['cross-boundary', 'random', 'single', 'aligned'])
+        if kind == 'aligned':
+            net = rand_net(rng, v)
+            return net[0], net[-1]
+        base = rng.getrandbits(bits)
+        if kind == 'single':
+            return (ipaddress.IPv4Address if v == 4 else ipaddress.IPv6Address)(base), (ipaddress.IPv4Address if v == 4 else ipaddress.IPv6Address)(base)
+        if kind == 'cross-boundary':
+            k = rng.randrange(2, min(bits, 24))
+            edge = (base >> k << k) | (1 << (k - 1))                      # a multiple of 2^(k-1): the range straddles it
+            span = max(2, 1 << (k - 2))
+            lo, hi = max(0, edge - rng.randrange(1, span)), min(2 ** bits - 1, edge + rng.randrange(0, span))
+        else:
+            lo = base
+            hi = min(2 ** bits - 1, base + rng.randrange(0, 1 << rng.randrange(1, 20)))
+        A0 = ipaddress.IPv4Address if v == 4 else ipaddress.IPv6Address
+        return A0(lo), A0(hi)
+
+    def covering(lo, hi):
+        diff = int(lo) ^ int(hi)
+        plen = bits - diff.bit_length()
+        A_ = ipaddress.IPv4Address if v == 4 else ipaddress.IPv6Address
+        return ipaddress.ip_network((A_(int(lo) >> (bits - plen) << (bits - plen) if plen else 0), plen))
+    (ilo, ihi), (rlo, rhi) = rnd_range(), rnd_range()
+    tst = 7 if v == 4 else 8
+    tsi = r_msg.TrafficSelector(tst, 0, 0, 65535, ilo, ihi)
+    tsr = r_msg.TrafficSelector(tst, 0, 0, 65535, rlo, rhi)
+    prop = r_msg.Proposal(1, r_msg.Proposal.Protocol.ESP, b'', [r_msg.Transform(r_msg.Transform.Type.ENCR, r_msg.Transform.EncrId.ENCR_AES_CBC, 128),
+                                                                r_msg.Transform(r_msg.Transform.Type.INTEG, r_msg.Transform.IntegId.AUTH_HMAC_SHA2_256_128)])
+    child = r_ikesa.ChildSa(inbound_spi=gen.rb(rng, 4), outbound_spi=gen.rb(rng, 4), original_proposal=prop, proposal=prop, tsi=tsi, tsr=tsr, mode=r_xfrm.Mode.TUNNEL, lifetime=300)
+    Ike = collections.namedtuple('Ike', 'my_addr peer_addr')
+    ike = Ike(rand_addr(rng, 4), rand_addr(rng, 4))
+    keyring = r_ikesa.Keyring(b'', gen.rb(rng, 32), gen.rb(rng, 32), gen.rb(rng, 16), gen.rb(rng, 16), b'', b'')
+    cap.sent.clear()
+    case = {'kind': 'create_child_sa', 'tsi': (str(ilo), str(ihi)), 'tsr': (str(rlo), str(rhi))}
+    try:
+        r_xfrm.Xfrm.create_child_sa(ike, child, keyring, True)
+    except Exception as ex:
+        ck.violation(f'create_child_sa-raised-{type(ex).__name__}:address-range-selectors', {'exc': repr(ex)[:160]}, case)
+        return
+    want_i, want_r = covering(ilo, ihi), covering(rlo, rhi)
+    ck.count('forward.child_sa_with_range_selectors')
+    ck.nontrivial(('child-ranges', v, want_i.prefixlen, want_r.prefixlen))
+    for raw, (src_net, dst_net) in zip(cap.sent[-2:], ((want_i, want_r), (want_r, want_i))):
+        d = orc.decode(raw)
+        sel = d.get('sel') or {}
+        A_ = ipaddress.IPv4Address if v == 4 else ipaddress.IPv6Address
+        got_s = ipaddress.ip_network((A_(bytes.fromhex(sel['saddr'])[:bits // 8]), sel['prefixlen_s']), strict=False) if sel else None
+        got_d = ipaddress.ip_network((A_(bytes.fromhex(sel['daddr'])[:bits // 8]), sel['prefixlen_d']), strict=False) if sel else None
+        if (got_s, got_d) != (src_net, dst_net):
+            ck.violation('NEWSA-selector-is-not-the-smallest-network-containing-the-negotiated-range', {'got': (str(got_s), str(got_d)), 'want': (str(src_net), str(dst_net))}, dict(case, raw=raw))
+            return
+
+
 def reverse(ck, rng, orc, cap, i):
     kind = ['acquire', 'expire', 'reply'][i % 3]
     if kind == 'acquire':
@@ -434,6 +499,9 @@ def run(ck):
         for i in range(3600 if not ck.thorough() else 300000):
             if ck.mine(i):
                 reverse(ck, rng, orc, cap, i)
+        for i in range(800 if not ck.thorough() else 80000):
+            if ck.mine(i):
+                child_sa_ranges(ck, rng, orc, cap, i)
         ck.sample({'sizes_from_kernel_headers': facts})
         ck.sample({'example_request_hex': cap.sent[-1].hex() if cap.sent else None})
     finally:
@@ -449,6 +517,7 @@ def verdict(ck):
     ck.floor('NEWSA requests decoded by the C oracle', c['forward.NEWSA'], 800)
     ck.floor('NEWPOLICY requests decoded', c['forward.NEWPOLICY'], 400)
     ck.floor('DELSA requests decoded', c['forward.DELSA'], 400)
+    ck.floor('CHILD_SAs with address-range selectors installed through create_child_sa', c['forward.child_sa_with_range_selectors'], 500)
     ck.floor('kernel-encoded ACQUIRE parsed', c['reverse.ACQUIRE'], 100)
     ck.floor('kernel-encoded EXPIRE parsed', c['reverse.EXPIRE'], 100)
     ck.floor('error replies', c['reverse.reply.error'], 100)
